@@ -1,0 +1,185 @@
+//go:build verif
+
+// Contracts for the side-chain registry (C33 consumed requests, C35 registry changes, C18 witnesses),
+// read by /verif/gocv.
+package side_chain_manager
+
+// storage keys of this contract: prefix literal + 8-byte little-endian chain id
+//@ spec scKey(prefix string, id uint64) KeyT = K2(utils.SideChainManagerContractAddress, prefix, u64le(id))
+
+// ---- storage helpers ---------------------------------------------------------------------------
+//@ func getSideChainApply
+//@   property C35
+//@   mode abstract
+//@   requires native != nil
+//@   modifies nothing
+//@   ensures err == nil ==> (r0 == nil <==> Store[scKey("sideChainApply", chanid)] == None)
+
+//@ func putSideChainApply
+//@   property C35
+//@   mode abstract
+//@   requires native != nil && sideChain != nil
+//@   modifies Store
+//@   ensures err == nil ==> Store == upd(old(Store), scKey("sideChainApply", old(sideChain.ChainId)), Store[scKey("sideChainApply", old(sideChain.ChainId))]) && Store[scKey("sideChainApply", old(sideChain.ChainId))] != None
+//@   ensures err != nil ==> Store == old(Store)
+
+//@ func GetSideChain
+//@   property C35, C21
+//@   mode abstract
+//@   requires native != nil
+//@   modifies nothing
+//@   ensures err == nil ==> (r0 == nil <==> Store[scKey("sideChain", chainID)] == None)
+
+//@ func PutSideChain
+//@   property C35
+//@   mode abstract
+//@   requires native != nil && sideChain != nil
+//@   modifies Store
+//@   ensures err == nil ==> Store == upd(old(Store), scKey("sideChain", old(sideChain.ChainId)), Store[scKey("sideChain", old(sideChain.ChainId))]) && Store[scKey("sideChain", old(sideChain.ChainId))] != None
+//@   ensures err != nil ==> Store == old(Store)
+
+//@ func getUpdateSideChain
+//@   property C35
+//@   mode abstract
+//@   requires native != nil
+//@   modifies nothing
+//@   ensures err == nil ==> (r0 == nil <==> Store[scKey("updateSideChainRequest", chanid)] == None)
+
+//@ func putUpdateSideChain
+//@   property C35
+//@   mode abstract
+//@   requires native != nil && sideChain != nil
+//@   modifies Store
+//@   ensures err == nil ==> Store == upd(old(Store), scKey("updateSideChainRequest", old(sideChain.ChainId)), Store[scKey("updateSideChainRequest", old(sideChain.ChainId))]) && Store[scKey("updateSideChainRequest", old(sideChain.ChainId))] != None
+//@   ensures err != nil ==> Store == old(Store)
+
+//@ func getQuitSideChain
+//@   property C35, C33
+//@   mode abstract
+//@   requires native != nil
+//@   modifies nothing
+//@   ensures result == nil ==> Store[scKey("quitSideChainRequest", chainid)] != None
+//@   ensures Store[scKey("quitSideChainRequest", chainid)] == None ==> result != nil
+
+//@ func putQuitSideChain
+//@   property C35
+//@   mode abstract
+//@   requires native != nil
+//@   modifies Store
+//@   ensures err == nil && Store == upd(old(Store), scKey("quitSideChainRequest", chainid), Store[scKey("quitSideChainRequest", chainid)]) && Store[scKey("quitSideChainRequest", chainid)] != None
+
+// ---- requests (owner witness) ---------------------------------------------------------------------
+//@ func RegisterSideChain
+//@   property C35, C18
+//@   mode abstract
+//@   requires native != nil && native.tx != nil
+//@   modifies Store
+//@   ghost var wit bool = false
+//@   ghost var cid uint64 = 0
+//@   set after "err := utils.ValidateOwner(native, params.Address)" : wit := err == nil
+//@   set after "err := utils.ValidateOwner(native, params.Address)" : cid := params.ChainId
+//@   callsite[c18-owner] ValidateOwner#1 requires arg1 == params.Address
+//@   -- storage changes only with the owner's witness
+//@   ensures[c18-witness] Store != old(Store) ==> wit
+//@   -- a chain id that is already registered or already requested cannot be requested again
+//@   ensures[c35-once] r1 == nil ==> old(Store)[scKey("sideChain", cid)] == None && old(Store)[scKey("sideChainApply", cid)] == None
+//@   -- a request never touches the registry itself
+//@   ensures[c35-registry-untouched] forall i uint64 :: Store[scKey("sideChain", i)] == old(Store)[scKey("sideChain", i)]
+
+//@ func UpdateSideChain
+//@   property C35, C18
+//@   mode abstract
+//@   requires native != nil && native.tx != nil
+//@   modifies Store
+//@   ghost var wit bool = false
+//@   ghost var cid uint64 = 0
+//@   ghost var ownerOK bool = false
+//@   set after "err := utils.ValidateOwner(native, params.Address)" : wit := err == nil
+//@   set after "err := utils.ValidateOwner(native, params.Address)" : cid := params.ChainId
+//@   set before "err = putUpdateSideChain(native, updateSideChain)" : ownerOK := sideChain != nil && sideChain.Address == params.Address
+//@   callsite[c18-owner] ValidateOwner#1 requires arg1 == params.Address
+//@   ensures[c18-witness] Store != old(Store) ==> wit
+//@   -- an update request is stored only for a registered chain and only by its registered owner
+//@   ensures[c35-owner] Store != old(Store) ==> ownerOK && old(Store)[scKey("sideChain", cid)] != None
+//@   ensures[c35-registry-untouched] forall i uint64 :: Store[scKey("sideChain", i)] == old(Store)[scKey("sideChain", i)]
+
+//@ func QuitSideChain
+//@   property C35, C18
+//@   mode abstract
+//@   requires native != nil && native.tx != nil
+//@   modifies Store
+//@   ghost var wit bool = false
+//@   ghost var cid uint64 = 0
+//@   ghost var ownerOK bool = false
+//@   set after "err := utils.ValidateOwner(native, params.Address)" : wit := err == nil
+//@   set after "err := utils.ValidateOwner(native, params.Address)" : cid := params.Chainid
+//@   set before "err = putQuitSideChain(native, params.Chainid)" : ownerOK := sideChain != nil && sideChain.Address == params.Address
+//@   callsite[c18-owner] ValidateOwner#1 requires arg1 == params.Address
+//@   ensures[c18-witness] Store != old(Store) ==> wit
+//@   ensures[c35-owner] Store != old(Store) ==> ownerOK && old(Store)[scKey("sideChain", cid)] != None
+//@   ensures[c35-registry-untouched] forall i uint64 :: Store[scKey("sideChain", i)] == old(Store)[scKey("sideChain", i)]
+
+// ---- approvals (validator quorum) -------------------------------------------------------------------
+//@ func ApproveRegisterSideChain
+//@   property C33, C35, C18
+//@   mode abstract
+//@   requires native != nil && native.tx != nil
+//@   modifies Store
+//@   ghost var wit bool = false
+//@   ghost var cid uint64 = 0
+//@   ghost var fired bool = false
+//@   ghost var rid uint64 = 0
+//@   set after "err := utils.ValidateOwner(native, params.Address)" : wit := err == nil
+//@   set after "err := utils.ValidateOwner(native, params.Address)" : cid := params.Chainid
+//@   set after "ok, err := node_manager.CheckConsensusSigns(native, APPROVE_REGISTER_SIDE_CHAIN, utils.GetUint64Bytes(params.Chainid), params.Address)" : fired := ok && err == nil
+//@   set before "err = PutSideChain(native, registerSideChain)" : rid := registerSideChain.ChainId
+//@   callsite[c18-owner] ValidateOwner#1 requires arg1 == params.Address
+//@   callsite[c32-separation] CheckConsensusSigns#1 requires arg1 == "approveRegisterSideChain" && bytes(arg2) == u64le(params.Chainid) && arg3 == params.Address
+//@   ensures[c18-witness] Store != old(Store) ==> wit
+//@   -- C33: once the quorum fires and the request is applied, the request is no longer pending
+//@   ensures[c33-consumed] r1 == nil && fired ==> Store[scKey("sideChainApply", cid)] == None
+//@   -- C35: the registry is written only when the quorum fired, from the stored request
+//@   ensures[c35-registered] r1 == nil && fired ==> Store[scKey("sideChain", rid)] != None
+//@   ensures[c35-onlyapproved] !fired ==> forall i uint64 :: Store[scKey("sideChain", i)] == old(Store)[scKey("sideChain", i)]
+//@   ensures[c33-pending] !fired ==> Store[scKey("sideChainApply", cid)] == old(Store)[scKey("sideChainApply", cid)]
+
+//@ func ApproveUpdateSideChain
+//@   property C33, C35, C18
+//@   mode abstract
+//@   requires native != nil && native.tx != nil
+//@   modifies Store
+//@   ghost var wit bool = false
+//@   ghost var cid uint64 = 0
+//@   ghost var fired bool = false
+//@   set after "err := utils.ValidateOwner(native, params.Address)" : wit := err == nil
+//@   set after "err := utils.ValidateOwner(native, params.Address)" : cid := params.Chainid
+//@   set after "ok, err := node_manager.CheckConsensusSigns(native, APPROVE_UPDATE_SIDE_CHAIN, utils.GetUint64Bytes(params.Chainid), params.Address)" : fired := ok && err == nil
+//@   callsite[c18-owner] ValidateOwner#1 requires arg1 == params.Address
+//@   callsite[c32-separation] CheckConsensusSigns#1 requires arg1 == "approveUpdateSideChain" && bytes(arg2) == u64le(params.Chainid) && arg3 == params.Address
+//@   ensures[c18-witness] Store != old(Store) ==> wit
+//@   ensures[c33-consumed] r1 == nil && fired ==> Store[scKey("updateSideChainRequest", cid)] == None
+//@   ensures[c35-onlyapproved] !fired ==> forall i uint64 :: Store[scKey("sideChain", i)] == old(Store)[scKey("sideChain", i)]
+//@   ensures[c33-pending] !fired ==> Store[scKey("updateSideChainRequest", cid)] == old(Store)[scKey("updateSideChainRequest", cid)]
+//@   -- an update is applied only if a request was pending
+//@   ensures[c35-requested] fired ==> old(Store)[scKey("updateSideChainRequest", cid)] != None
+
+//@ func ApproveQuitSideChain
+//@   property C33, C35, C18
+//@   mode abstract
+//@   requires native != nil && native.tx != nil
+//@   modifies Store
+//@   ghost var wit bool = false
+//@   ghost var cid uint64 = 0
+//@   ghost var fired bool = false
+//@   set after "err := utils.ValidateOwner(native, params.Address)" : wit := err == nil
+//@   set after "err := utils.ValidateOwner(native, params.Address)" : cid := params.Chainid
+//@   set after "ok, err := node_manager.CheckConsensusSigns(native, QUIT_SIDE_CHAIN, utils.GetUint64Bytes(params.Chainid), params.Address)" : fired := ok && err == nil
+//@   callsite[c18-owner] ValidateOwner#1 requires arg1 == params.Address
+//@   callsite[c32-separation] CheckConsensusSigns#1 requires arg1 == "quitSideChain" && bytes(arg2) == u64le(params.Chainid) && arg3 == params.Address
+//@   ensures[c18-witness] Store != old(Store) ==> wit
+//@   -- C33: the approved quit request is consumed
+//@   ensures[c33-consumed] r1 == nil && fired ==> Store[scKey("quitSideChainRequest", cid)] == None
+//@   -- C35: the chain is removed exactly when the quorum fired, and only if a quit request was pending
+//@   ensures[c35-removed] r1 == nil && fired ==> Store[scKey("sideChain", cid)] == None
+//@   ensures[c35-onlyapproved] !fired ==> forall i uint64 :: Store[scKey("sideChain", i)] == old(Store)[scKey("sideChain", i)]
+//@   ensures[c35-requested] fired ==> old(Store)[scKey("quitSideChainRequest", cid)] != None
